@@ -370,7 +370,11 @@ def enforce(A: spmatrix,
     """
     b, x, I, D = _init_bc(A, b, x, I, D)
 
-    Aout = A if overwrite else A.copy()
+    if A.format != 'csr':
+        # the row-wise zeroing below works on the CSR storage
+        Aout = A.tocsr()
+    else:
+        Aout = A if overwrite else A.copy()
 
     # set rows on lhs to zero
     start = Aout.indptr[D]
